@@ -170,7 +170,8 @@ def generate(rng, tier):
         c = rng.random()
         if c < 0.5:
             ops.append({"op": "bin", "seed": rng.getrandbits(32), "mode": rng.choice(["sum", "avg"]),
-                        "scalar": rng.random() < 0.25, "stack": rng.random() < 0.5})
+                        "scalar": rng.random() < 0.25, "stack": rng.random() < 0.5,
+                        "src": rng.choice(["float", "float", "dn", "dn", "bool"])})
         else:
             ops.append({"op": "bayer", "cfa": rng.choice(["rggb", "bggr"]), "as_int": rng.random() < 0.5})
     return {"prop": PROP, "tier": tier, "config": {"mode": mode, "rng_seed": rng.getrandbits(48)},
@@ -404,7 +405,10 @@ def execute(plan):
                 ev["out"] = "skip"
                 events.append(ev)
                 continue
-            x = frame_f if (op["stack"] or frame_f.ndim == 2) else frame_f[0]
+            src = op.get("src", "float")
+            base = frame_f if src == "float" else (dn1 if src == "dn" else (dn1 > np.median(dn1)))
+            x = base if (op["stack"] or base.ndim == 2) else base[0]
+            bump(probes, f"bin_src_{src}")
             g = np.random.Generator(np.random.PCG64(op["seed"]))
             fac = _factors(g, x.shape, op["scalar"])
             _bin_tile(np, D, x, fac, op["mode"], g, viol, bump, probes)
@@ -447,7 +451,7 @@ def _block_reduce(np, x, fac, how):
     out = np.zeros(out_shape, dtype=np.float64)
     for idx in np.ndindex(*out_shape):
         slc = tuple(slice(i * f, (i + 1) * f) for i, f in zip(idx, fac))
-        blk = x[slc]
+        blk = np.asarray(x[slc]).astype(np.float64)     # exact for |values| < 2**53
         out[idx] = blk.sum() if how == "sum" else blk.mean()
     return out
 
@@ -461,10 +465,11 @@ def _bin_tile(np, D, x, fac, mode, g, viol, bump, probes):
         return
     want = _block_reduce(np, x, facs, mode)
     sc = max(float(np.abs(want).max()), 1e-300)
-    if b.shape != want.shape or not bool(np.all(np.abs(b - want) <= 1e-12 * sc * max(1, np.prod(facs)))):
+    if b.shape != want.shape or not bool(np.all(np.abs(b.astype(np.float64) - want) <= 1e-12 * sc * max(1, np.prod(facs)))):
         viol("bin-" + mode, "bindown", factor=facs, shape=list(x.shape))
         return
-    if mode == "sum" and not abs(float(b.sum()) - float(x.sum())) <= 1e-11 * max(abs(float(x.sum())), 1e-300):
+    xs = float(np.asarray(x).astype(np.float64).sum())
+    if mode == "sum" and not abs(float(np.asarray(b).astype(np.float64).sum()) - xs) <= 1e-11 * max(abs(xs), 1e-300):
         viol("bin-sum", "bindown", note="total not conserved")
     y = g.standard_normal(want.shape)
     for scaling in ("sum", "avg"):
@@ -492,9 +497,10 @@ def _bin_tile(np, D, x, fac, mode, g, viol, bump, probes):
     ba = np.asarray(D.bindown(x.copy(), fac if isinstance(fac, int) else list(fac), mode="avg"))
     ta = np.asarray(D.tile(y.copy(), fac if isinstance(fac, int) else list(fac), scaling="avg"))
     ts = np.asarray(D.tile(y.copy(), fac if isinstance(fac, int) else list(fac), scaling="sum"))
-    for nm, lhs, rhs in (("sum-avg", float((bs * y).sum()), float((x * ta).sum())),
-                         ("avg-sum", float((ba * y).sum()), float((x * ts).sum()))):
-        mag = float(np.abs(x).sum()) * float(np.abs(y).max()) + 1e-300
+    xf = np.asarray(x).astype(np.float64)
+    for nm, lhs, rhs in (("sum-avg", float((bs.astype(np.float64) * y).sum()), float((xf * ta).sum())),
+                         ("avg-sum", float((ba.astype(np.float64) * y).sum()), float((xf * ts).sum()))):
+        mag = float(np.abs(xf).sum()) * float(np.abs(y).max()) + 1e-300
         if not abs(lhs - rhs) <= 1e-11 * mag:
             viol("bin-tile-adjoint", "bindown/tile", pair=nm, lhs=lhs, rhs=rhs)
     bump(probes, "bin_tile_checked")
